@@ -2,6 +2,7 @@
 #define PHOTOSPLINE_FITSIO_H
 
 #include <string.h>
+#include <cstdio>
 
 namespace photospline{
 	
@@ -428,25 +429,30 @@ void splinetable<Alloc>::write_fits(const std::string& filePath) const{
 		~fits_cleanup(){
 			if(!fits)
 				return;
+			//Writing failed. Closing would make cfitsio complete the structure of
+			//the file (zero filled data units) around whatever was written, giving
+			//a file which can be read back as a table with wrong contents, so the
+			//incomplete file is removed instead.
 			int error=0;
-			fits_close_file(fits, &error);
+			fits_delete_file(fits, &error);
 			fits_report_error(stderr, error);
 		}
-		void close(){
+		void close(const std::string& filePath){
 			fitsfile* f=fits;
 			fits=nullptr; //cfitsio releases the handle even when closing fails
 			int error=0;
 			fits_close_file(f, &error);
 			if(error!=0){
 				fits_report_error(stderr, error);
-				throw std::runtime_error("CFITSIO failed to flush and close the FITS file: Error "+std::to_string(error));
+				remove(filePath.c_str()); //incomplete
+				throw std::runtime_error("CFITSIO failed to flush and close "+filePath+": Error "+std::to_string(error));
 			}
 		}
 	} cleanup(fits);
 	
 	write_fits_core(fits);
 	//most data reaches the file only now; a failure here means the file is incomplete
-	cleanup.close();
+	cleanup.close(filePath);
 }
 	
 template<typename Alloc>
